@@ -2,6 +2,7 @@
 run-time operator table (impl ops for &Primitive, PartialOrd, equals,
 runtime_addr_check, negate), the constant folder's table (impl ops for &Number),
 all read off the MIR by abstract interpretation (absint)."""
+import re
 import absint
 import mir
 from absint import Interp, Int, Flt, Str, Variant, Opaque, Tup, TRUE, FALSE
@@ -93,7 +94,70 @@ def _int_divrem(which):
     return m
 
 
+def _int_unary(name):
+    """exact integer helpers on a known value (bit counts, magnitude); anything else stays opaque"""
+    def m(it, p, fid, fn, t, args):
+        a = args[0]
+        n = 0
+        while isinstance(a, absint.Ptr) and n < 4:
+            a = it.deref(p, a)
+            n += 1
+        if not (isinstance(a, Int) and a.ty in ("i32", "i128", "u8", "u32", "u128", "u64", "i64")):
+            return NotImplemented
+        bits = int(a.ty[1:])
+        if name == "unsigned_abs":
+            return Int(abs(a.v), "u" + a.ty[1:])
+        if name == "checked_abs":
+            return absint.NONE if a.v == -(1 << (bits - 1)) else absint.some(Int(abs(a.v), a.ty))
+        v = a.v % (1 << bits)
+        if name == "leading_zeros":
+            return Int(bits - v.bit_length(), "u32")
+        if name == "trailing_zeros":
+            return Int(bits if v == 0 else (v & -v).bit_length() - 1, "u32")
+        return NotImplemented
+    return m
+
+
+def _int_try_from(it, p, fid, fn, t, args):
+    """`<iN as TryFrom<iM>>::try_from` / try_into on a known integer: Ok in range, Err outside"""
+    a = args[0]
+    n = 0
+    while isinstance(a, absint.Ptr) and n < 4:
+        a = it.deref(p, a)
+        n += 1
+    if not isinstance(a, Int):
+        return NotImplemented
+    dst = fn.locals[t["dst"]["l"]] if not t["dst"].get("p") else ""
+    m = re.match(r"core::result::Result<(i8|i16|i32|i64|i128|isize|u8|u16|u32|u64|u128|usize), ", dst)
+    if not m:
+        return NotImplemented
+    ty = m.group(1)
+    bits = 64 if ty.endswith("size") else int(ty[1:])
+    lo, hi = (-(1 << (bits - 1)), (1 << (bits - 1)) - 1) if ty[0] == "i" else (0, (1 << bits) - 1)
+    if lo <= a.v <= hi:
+        return absint.ok(Int(a.v, ty))
+    return absint.err(Opaque("TryFromIntError"))
+
+
+def _u32_saturating_add(it, p, fid, fn, t, args):
+    a, b = args[0], args[1]
+    if isinstance(a, Int) and isinstance(b, Int) and a.ty == b.ty == "u32":
+        return Int(min(a.v + b.v, 2**32 - 1), "u32")
+    return NotImplemented
+
+
 MODELS = {
+    "core::num::<impl u32>::saturating_add": _u32_saturating_add,
+    "core::num::<impl i128>::checked_abs": _int_unary("checked_abs"),
+    "core::num::<impl i32>::checked_abs": _int_unary("checked_abs"),
+    "core::num::<impl i128>::unsigned_abs": _int_unary("unsigned_abs"),
+    "core::num::<impl i32>::unsigned_abs": _int_unary("unsigned_abs"),
+    "core::num::<impl u128>::leading_zeros": _int_unary("leading_zeros"),
+    "core::num::<impl u128>::trailing_zeros": _int_unary("trailing_zeros"),
+    "core::num::<impl u32>::leading_zeros": _int_unary("leading_zeros"),
+    "core::num::<impl u32>::trailing_zeros": _int_unary("trailing_zeros"),
+    "core::convert::TryFrom::try_from": _int_try_from,
+    "core::convert::TryInto::try_into": _int_try_from,
     "core::cmp::PartialEq::eq": _float_eq,
     "core::result::Result::map": _result_map,
     "core::ops::arith::Div::div": _int_divrem("div"),
